@@ -13,6 +13,7 @@ harness:
 	cp /repo/go.sum harness/go.sum
 	cd harness && go build -tags verif -o ../.work/harness-verif .
 	./.work/harness-verif consts > coq/gen/Extracted.v.new && mv coq/gen/Extracted.v.new coq/gen/Extracted.v
+	./.work/harness-verif translate > coq/gen/Translated.v.new && mv coq/gen/Translated.v.new coq/gen/Translated.v
 
 coq: harness
 	sh tools/mkcoqproject.sh
